@@ -12,6 +12,7 @@ import (
 
 	"verif/harness/addrfam"
 	"verif/harness/concfam"
+	"verif/harness/emlfam"
 	"verif/harness/linefam"
 	"verif/harness/mimefam"
 	"verif/harness/pipeconn"
@@ -180,6 +181,17 @@ func runOne(family string, j job, seed int64) result {
 			s.ID = fmt.Sprintf("K%06d", j.idx)
 		}
 		rn := &concfam.Runner{Sc: s, Rec: rec.New(), T: j.idx, Seed: seed}
+		rn.Run()
+		return result{idx: j.idx, lines: rn.Rec.Lines(), infra: rn.Infra}
+	case "eml":
+		var s emlfam.Scenario
+		if err := json.Unmarshal(j.line, &s); err != nil {
+			return result{idx: j.idx, infra: err}
+		}
+		if s.ID == "" {
+			s.ID = fmt.Sprintf("E%06d", j.idx)
+		}
+		rn := &emlfam.Runner{Sc: s, Rec: rec.New(), T: j.idx, Seed: seed, TmpDir: session.TLSDir}
 		rn.Run()
 		return result{idx: j.idx, lines: rn.Rec.Lines(), infra: rn.Infra}
 	case "mime":
